@@ -51,19 +51,8 @@ SITES: List[Tuple[str, Tuple[str, ...], str]] = [
 
 
 def _func_total(ctx, fn: Func, depth: int = 1) -> Tuple[bool, Optional[ast.AST]]:
-    """Every may-raise statement of fn's body lies inside a catch-all try whose handlers cannot raise.
-    Gate tests calling a total helper are allowed (depth-bounded)."""
-    allow = set()
-    if depth > 0:
-        for x in walk_no_defs(fn.node):
-            if isinstance(x, ast.Call):
-                r = ctx.prog.callee(fn, x)
-                if r and r[0] == "func":
-                    ok, _ = _func_total(ctx, ctx.prog.funcs[r[1]], depth - 1)
-                    if ok:
-                        allow.add(dotted(x.func))
-    body = [st for st in fn.node.body if not (isinstance(st, ast.Expr) and isinstance(st.value, ast.Constant))]
-    return _block_cannot_raise(body, allow)
+    from ..util import func_total
+    return func_total(ctx, fn, depth)
 
 
 def _call_sites(fn: Func, tails: Sequence[str]) -> List[ast.Call]:
@@ -372,9 +361,10 @@ def run(ctx) -> None:
                           ": a failure of this optional subsystem aborts the turn")
                 continue
             bad = None
+            from ..util import total_helpers
             for h in t.handlers:
                 if handler_catches_all(h):
-                    okh, badn = handler_cannot_raise(h)
+                    okh, badn = handler_cannot_raise(h, allow_calls=sorted(total_helpers(ctx, fn)))
                     if not okh:
                         bad = badn
             ctx.check(bad is None, "C20.ESC", key, fn.loc(c), f"[{why}] enclosed by `except Exception` whose handler body cannot raise",
